@@ -117,6 +117,9 @@ class Rec:
     def violation(self, mechanism, what, case, observed=None, expected=None):
         """mechanism: short stable key naming HOW the property is violated (used by the known-finding
         classifier); case: JSON-able input that re-runs exactly this case through replay()"""
+        from .mon import faults
+        if faults.note:
+            mechanism, what = "fault:" + mechanism, f"{what} [{faults.note}]"
         self.counters["violations:" + mechanism] += 1
         if sum(1 for v in self.violations if v["mechanism"] == mechanism) >= 3 or len(self.violations) >= 25:
             return
